@@ -28,30 +28,21 @@ ASSUMPTIONS = [
     "an error 'names the supported modes' if every supported mode's display name occurs in it and no other unsupported mode's name does",
 ]
 
-_TMP = None
-
-
-def tmpdir():
-    global _TMP
-    if _TMP is None or _TMP[0] != os.getpid():
-        _TMP = (os.getpid(), tempfile.mkdtemp(prefix="aiosw-verif-ir-"))
-    return _TMP[1]
-
-
 def make_remote(spec, via_file):
     from aioswitcher.api.remotes import SwitcherBreezeRemote, SwitcherBreezeRemoteManager
     ir = irset.expand(spec)
     if not via_file:
         return SwitcherBreezeRemote(ir), ir
-    path = os.path.join(tmpdir(), f"db{os.getpid()}.json")
-    other = dict(spec, id="OTHER001", seed=spec.get("seed", 0) + 1)
-    with open(path, "w") as fh:
-        json.dump({"OTHER001": irset.expand(other), spec["id"]: ir}, fh)
-    mgr = SwitcherBreezeRemoteManager(path)
-    if spec.get("seed", 0) % 2:
-        mgr.get_remote("OTHER001")     # another remote loaded first must not shadow this one
-    r1 = mgr.get_remote(spec["id"])
-    r2 = mgr.get_remote(spec["id"])
+    with tempfile.TemporaryDirectory(prefix="aiosw-verif-ir-") as td:
+        path = os.path.join(td, "irset_db.json")
+        other = dict(spec, id="OTHER001", seed=spec.get("seed", 0) + 1)
+        with open(path, "w") as fh:
+            json.dump({"OTHER001": irset.expand(other), spec["id"]: ir}, fh)
+        mgr = SwitcherBreezeRemoteManager(path)
+        if spec.get("seed", 0) % 2:
+            mgr.get_remote("OTHER001")     # another remote loaded first must not shadow this one
+        r1 = mgr.get_remote(spec["id"])
+        r2 = mgr.get_remote(spec["id"])
     if r1 is not r2 and r1.remote_id != r2.remote_id:
         raise Violation("C15/manager-returns-different-remotes", {"spec": spec}, spec["id"], [r1.remote_id, r2.remote_id])
     return r1, ir
